@@ -205,6 +205,40 @@ def run(chk):
         if (m or '').split()[1:] != i.split()[1:]:
             ndis += 1
             chk.tie_break('correspondence:cmap', 'model %r vs implementation %r' % ((m or '')[:200], i[:200]), c[:400])
+    # more format 12 groups than a 16-bit counter holds (num_groups is a uint32): characters of the groups beyond the 65536th.  Against the
+    # reference of the cmap format only (the extracted model needs minutes for a table of this size)
+    rng = chk.rng
+    bcases, bmeta = [], []
+    for i in range(3 if chk.tier == 'thorough' else 1):
+        segs = G.gen_segments(rng, 6)
+        ngr = 65536 + rng.choice((1, 464, 3000))
+        groups, c = [], 0x10000
+        for k in range(ngr):
+            ln = 1 if k % 7 else 2
+            groups.append((c, c + ln - 1, 1 + (k * 5) % 60000))
+            c += ln + (1 if k % 3 else 2)
+        pts = sorted(set([0x41, groups[0][0], groups[1][1], groups[65535][0], groups[65536][0], groups[65536][1], groups[-1][0], groups[-1][1], groups[-1][1] + 1, groups[40000][0], groups[65535][1] + 1]
+                         + [groups[rng.randrange(ngr)][0] for _ in range(8)]))
+        tbl = G.cmap_table([(3, 1, G.fmt4(segs)), (3, 10, G.fmt12(groups))])
+        bcases.append('b%d tbl %s %s' % (i, hexs(tbl), ' '.join('%x' % p for p in pts))); bmeta.append((segs, groups, pts))
+    _, bil, _ = vlib.run_pair(None, wrapper, bcases, timeout=1200)
+    for c, (segs, groups, pts), i in zip(bcases, bmeta, bil):
+        key = 'cmap-many-groups:%d' % len(groups)
+        if i is None or ' ABORT ' in i or ' D ' not in i:
+            chk.violation(key, 'a cmap with %d format 12 groups was not handled: %s' % (len(groups), (i or '')[:200]), dict(case=c[:300] + '...', got=(i or '')[:400], ngroups=len(groups))); continue
+        body = i.split(' D ')[1]
+        d, cc = (body.split(' C ') + [''])[:2]
+        d, cc = d.split(), cc.split()
+        for k, p in enumerate(pts):
+            exp = G.spec4(segs, p) if p <= 0xFFFF else G.spec12(groups, p)
+            if exp is None:
+                continue
+            if k < len(d) and int(d[k], 16) != exp:
+                chk.violation('cmap-direct:%x:%s' % (p, key), 'U+%04X in a cmap with %d format 12 groups: direct lookup gives glyph %s, the cmap assigns %x' % (p, len(groups), d[k], exp), dict(codepoint='%x' % p, ngroups=len(groups), got=i[:400])); break
+            if cc and cc[0] != 'NA' and k < len(cc) and int(cc[k], 16) != exp:
+                chk.violation('cmap-cached:%x:%s' % (p, key), 'U+%04X in a cmap with %d format 12 groups: cached lookup gives glyph %s, the cmap assigns %x' % (p, len(groups), cc[k], exp), dict(codepoint='%x' % p, ngroups=len(groups), got=i[:400])); break
+        classes.add(('many-groups', len(groups) > 65536))
+    dist['tables with more than 65536 format 12 groups'] = len(bcases)
     # fonts
     byfont = {}
     for c, l in zip(fcases, fl):
